@@ -108,13 +108,15 @@ class AddrGroup(Base, Group):
                 if not isinstance(other_item, (AddressAg, AddrGroup)):
                     raise TypeError(f"{other_item=} {AddressAg} expected")
                 if other_item in self._items:
-                    return True
+                    continue
                 for item in self._items:
                     if not isinstance(item, AddressAg):
                         raise TypeError(f"{item=} {AddressAg} expected")
-                    if other in item:
-                        return True
-            return False
+                    if other_item in item:
+                        break
+                else:
+                    return False
+            return bool(other.items)
         raise TypeError(f"{other=} {UAddrGr} expected")
 
     # =========================== property ===========================
